@@ -290,6 +290,72 @@ func runFresh(c *Ctx, r *Reporter) {
 			r.Viol(fd.QName()+"#new-"+s.typ+"."+s.field, p.Rel(fd.Decl.Pos()), "expected "+s.fn+" to construct a "+s.typ+" with its own "+s.field+" ("+s.reason+"); no such construction found")
 		}
 	}
+	// iteration state belongs to one activation of one loop: every function that returns a ranger returns an object
+	// allocated in that very call (or the result of another such function), never one kept in the evaluator
+	rangerT, _ := pkg.Types.Scope().Lookup("ranger").(*types.TypeName)
+	if rangerT == nil {
+		r.Undecided("type ranger not found")
+	} else {
+		nr := 0
+		isRangerCtor := func(fn *ssa.Function) bool {
+			res := fn.Signature.Results()
+			return res.Len() >= 1 && types.Identical(res.At(0).Type(), rangerT.Type())
+		}
+		for _, fn := range ssaFuncsOf(p, pkg) {
+			if !isRangerCtor(fn) {
+				continue
+			}
+			k := 0
+			for _, ret := range returnsOf(fn) {
+				for _, v := range resultValues(ret, 0) {
+					var bad func(v ssa.Value, depth int) string
+					bad = func(v ssa.Value, depth int) string {
+						if depth > 6 {
+							return "value too deep to resolve"
+						}
+						switch x := v.(type) {
+						case *ssa.Const:
+							if x.IsNil() {
+								return ""
+							}
+						case *ssa.MakeInterface:
+							return bad(x.X, depth+1)
+						case *ssa.Alloc:
+							if x.Heap {
+								return ""
+							}
+						case *ssa.Phi:
+							for _, e := range x.Edges {
+								if why := bad(e, depth+1); why != "" {
+									return why
+								}
+							}
+							return ""
+						case *ssa.Extract:
+							if call, ok := x.Tuple.(*ssa.Call); ok && x.Index == 0 {
+								if sc := call.Call.StaticCallee(); sc != nil && isRangerCtor(sc) {
+									return ""
+								}
+							}
+						case *ssa.Call:
+							if sc := x.Call.StaticCallee(); sc != nil && isRangerCtor(sc) {
+								return ""
+							}
+						}
+						return "`" + v.String() + "` is not an object allocated in this call"
+					}
+					k++
+					nr++
+					why := bad(v, 0)
+					r.Check(why == "", fmt.Sprintf("%s#ranger-fresh[%d]", ssaQName(fn), k), p.Rel(instrPos(ret)), "the iteration state returned here is allocated in this call",
+						"the iteration state of a loop is not allocated per activation ("+why+"): a loop that is entered again while an outer activation of the same statement is still running — recursion through a for loop — shares its state with it, so the outer loop continues where the inner one stopped")
+				}
+			}
+		}
+		if nr == 0 {
+			r.Undecided("no function returning a ranger found")
+		}
+	}
 	// concatenation: result of OP_PLUS in evalBinaryArrayExpr originates from Copy(); repetition elements from deepCopy
 	fd := FindFunc(pkg, "evalBinaryArrayExpr")
 	if fd != nil {
@@ -600,6 +666,57 @@ func runRunes(c *Ctx, r *Reporter, rel, typeName string) {
 			r.Viol(construct, p.Rel(firstPos), "byte-based string access: "+strings.Join(bad, "; ")+" — non-ASCII strings get a wrong length or broken characters")
 		} else {
 			r.Ok(construct, p.Rel(fn.Decl.Pos()), "no byte-based length/index/slice on Evy strings")
+		}
+	}
+	runeCacheClause(p, pkg, r, typeName)
+}
+
+// runeCacheClause: a cached rune view of a string value is only ever `[]rune(x.V)` of the very object it is stored
+// in (a conversion, hence a fresh slice), or nil. A view derived from another value's view — extended with append,
+// resliced, copied over — can share its backing array with that value, so indexing one string shows characters of
+// another while printing stays correct.
+func runeCacheClause(p *Program, pkg *packages.Package, r *Reporter, typeName string) {
+	n := 0
+	for _, fn := range ssaFuncsOf(p, pkg) {
+		for _, b := range fn.Blocks {
+			for _, ins := range b.Instrs {
+				st, ok := ins.(*ssa.Store)
+				if !ok {
+					continue
+				}
+				fa, ok := st.Addr.(*ssa.FieldAddr)
+				if !ok {
+					continue
+				}
+				owner, fname := fieldAddrInfo(fa)
+				if owner == nil || owner.Obj().Name() != typeName || owner.Obj().Pkg() != pkg.Types {
+					continue
+				}
+				sl, isSlice := st.Val.Type().Underlying().(*types.Slice)
+				if !isSlice {
+					continue
+				}
+				if bt, ok := sl.Elem().Underlying().(*types.Basic); !ok || bt.Kind() != types.Int32 {
+					continue
+				}
+				n++
+				construct := fmt.Sprintf("%s#rune-cache:%s[%d]", ssaQName(fn), fname, n)
+				good := false
+				switch v := st.Val.(type) {
+				case *ssa.Const:
+					good = v.IsNil()
+				case *ssa.Convert:
+					if u, ok := v.X.(*ssa.UnOp); ok && u.Op == token.MUL {
+						if fa2, ok := u.X.(*ssa.FieldAddr); ok {
+							_, f2 := fieldAddrInfo(fa2)
+							good = f2 == "V" && (fa2.X == fa.X || sameValueExpr(fa2.X, fa.X, 5))
+						}
+					}
+				}
+				r.Check(good, construct, p.Rel(instrPos(st)), "the cached rune view is the conversion of the object's own string",
+					"the cached rune view of a string value is not `[]rune(x.V)` of the object it is stored in: a view built from another value's view (append, reslice) can share its backing array, "+
+						"so `a := s + \"x\"; b := s + \"y\"` makes a[-1] show b's last character while printing stays correct")
+			}
 		}
 	}
 }
